@@ -8,7 +8,7 @@ use crate::typed::{self, RefEval, RefType, RefValue};
 use crate::util::Ch;
 
 pub fn step_budget(tier: Tier) -> u64 {
-    tier.pick(20_000, 200_000)
+    tier.pick(20_000, 60_000)
 }
 
 /// Compare gram's evaluation of an accepted program with the reference interpreter.
